@@ -96,11 +96,7 @@ Section L1D.
     let s1 := fold_left tell1 l1 s in let s2 := fold_left tell1 l2 s in
     data s1 = data s2 /\ pend s1 = pend s2 /\ nb s1 = nb s2 /\ nbc s1 = nbc s2 /\
     bbx s1 = bbx s2 /\ bby s1 = bby s2 /\ sx s1 = sx s2 /\ sy s1 = sy s2.
-  Proof.
-    intros OL s l1 l2 HW HP.
-    pose proof (l1d_data_level_order_irrelevant num sub mul div ltb eqb zero one inf neg_inf is_nan is_inf round12 Lf P OL s l1 l2 HW HP) as H.
-    unfold proj in H. inversion H. repeat split; assumption.
-  Qed.
+  Proof. exact (l1d_data_level_components num sub mul div ltb eqb zero one inf neg_inf is_nan is_inf round12 Lf P). Qed.
 
   Theorem C11_l1d_batch_partial : OrdLaws ltb eqb is_nan ->
     forall (s : st num) (xys : list (num * Y num)) (force : bool),
@@ -150,10 +146,7 @@ Section L1DLoss.
     let s0 := fold_left tell_pending pending init in
     let t1 := fold_left tell1 l1 s0 in let t2 := fold_left tell1 l2 s0 in
     los t1 = los t2 /\ loss t1 true = loss t2 true /\ osy t1 = osy t2 /\ mgrx t1 = mgrx t2.
-  Proof.
-    intros OL F1 SL.
-    exact (l1d_losses_scalar num add sub mul div ltb eqb zero one inf neg_inf is_nan is_inf round12 Lf P OL F1 SL).
-  Qed.
+  Proof. exact (l1d_losses_scalar num add sub mul div ltb eqb zero one inf neg_inf is_nan is_inf round12 Lf P). Qed.
 End L1DLoss.
 
 (* closed: exact rationals, every loss function, bounds, nth_neighbors; factor 1 *)
@@ -172,14 +165,7 @@ Theorem C11_l1d_losses_order_irrelevant_Qc :
   let loss := @L1D.loss Qc Qcminus Qcdiv OrderL1D.Qc_ltb OrderL1D.Qc_eqb inf (fun _ => false) (fun _ => false) round12 P in
   L1D.los (fold_left t l1 s0) = L1D.los (fold_left t l2 s0) /\
   loss (fold_left t l1 s0) true = loss (fold_left t l2 s0) true.
-Proof.
-  intros Lf P inf neg_inf round12 HF pending l1 l2 Hnd Hg HP.
-  assert (F1 : forall a, Qcmult (L1D.factor P) a = a) by (intros a; rewrite HF; ring).
-  destruct (C11_l1d_losses_order_irrelevant Qc Qcplus Qcminus Qcmult Qcdiv OrderL1D.Qc_ltb OrderL1D.Qc_eqb (Q2Qc 0) (Q2Qc 1)
-              inf neg_inf (fun _ => false) (fun _ => false) round12 Lf P
-              OrderL1D.OrdLaws_Qc F1 OrderL1DLoss.ScaleLaws_Qc pending l1 l2 Hnd Hg HP) as [H1 [H2 _]].
-  split; assumption.
-Qed.
+Proof. exact OrderL1DLoss.l1d_losses_scalar_Qc. Qed.
 
 (* ---------------- non-vacuity ---------------- *)
 Example C11_seq_example :
